@@ -152,6 +152,8 @@ def run(tier):
     rcode, nnew = v.finish()
     # non-vacuity: the situations the clauses speak about must have occurred (unless the
     # run already reports violations, e.g. every periodic call hanging)
+    if met.get("skipped") and rcode == 0:
+        raise Broken("cases were skipped although nothing was rejected: %s" % met)
     if rcode == 0:
         for need in ("done", "periodic", "onePerInt", "refused"):
             if not met.get(need):
